@@ -33,8 +33,10 @@ TCreate   == IsEv("tkcreate") /\ E.rc = 0 /\ aux' = [aux EXCEPT !.typ = IF E.h =
 TCallStart == IsEv("call.start") /\ s.pc \in {"none", "idle"} /\ op = << >> /\ aux.api = ""
               /\ s' = ApiStart(s, E.direct = 1, aux.typ, (E.tflags \div 2) % 2 = 1, E.ev, E.efl, E.tmo, E.foff)
               /\ aux' = [aux EXCEPT !.foff0 = E.foff] /\ KeepOp
-TRetStart == IsEv("ret.start") /\ s.pc \in {"restart", "dstart"}
-             /\ s' = IF s.pc = "restart" THEN RestartEnd(s, op, E.rc) ELSE DStartEnd(s, op, E.rc)
+TRetStart == IsEv("ret.start") /\ s.pc \in {"restart", "dstart", "dead"}       \* dead: destroyed inside the callback of the direct first I/O
+             /\ s' = (IF s.pc = "restart" THEN RestartEnd(s, op, E.rc)
+                      ELSE IF s.pc = "dstart" THEN DStartEnd(s, op, E.rc)
+                      ELSE Chk(s, op = << >> /\ E.rc = 0, "PROPERTY:ArmingOps:start-after-destroy"))
              /\ Clr /\ UNCHANGED aux
 TCallRestart == IsEv("call.restart") /\ s.pc = "idle" /\ op = << >> /\ aux.api = ""
                 /\ s' = [s EXCEPT !.pc = "restart"] /\ KeepOp /\ UNCHANGED aux
@@ -85,7 +87,7 @@ TQuiesce  == IsEv("quiesce") /\ UNCHANGED <<s, op, aux>>
 TCount    == IsEv("tkcount") /\ E.cbs = s.ncb /\ s' = Quiet(s) /\ KeepOp /\ UNCHANGED aux
 TReset    == IsEv("Reset") /\ s' = NewTask(0, 0, 0, 0, << >>) /\ Clr /\ aux' = NoAux
 
-Report == \A n \in s'.notes \ s.notes : PrintT(<<"NOTE", l, n>>)
+Report == \A n \in s'.notes \ s.notes : PrintT(ToJson([note |-> n, line |-> l]))
 TNext == /\ \/ TNew \/ TFill \/ TCreate \/ TCallStart \/ TRetStart \/ TCallRestart \/ TRetRestart \/ TCallApi \/ TRetStop
             \/ TRetEnable \/ TRetDestroy \/ TPost \/ TSettime \/ TFail \/ TLoopCb \/ TIo \/ TCbBegin \/ TRewind \/ TCbEnd
             \/ TLoopTurn \/ TPeerW \/ TPeerC \/ TPeerR \/ TWaited \/ TQuiesce \/ TCount \/ TReset
